@@ -39,7 +39,7 @@ def reexpress(r, W, force_pods=None):
                         'omit_ns': r.random() < 0.5})
             how.append('%s/%s -> %s' % (ns, name, k))
         elif x < 0.85:
-            ok = r.choice(['ReplicaSet', 'StatefulSet', 'DaemonSet', 'Job'])
+            ok = r.choice(['ReplicaSet', 'StatefulSet', 'DaemonSet', 'Job', 'ReplicationController'])
             n = r.randint(1, 3)
             for i in range(n):
                 out.append({'kind': 'Pod', 'ns': ns, 'name': '%s-p%d' % (name, i), 'labels': dict(w['labels']), 'ports': copy.deepcopy(w['ports']),
